@@ -13,14 +13,20 @@ EXPLANATION = (
     "lower endpoint is <= and the upper endpoint >= every corner value of the exact operation (corner lemma: the extreme values "
     "of x+y, x-y, x*y, x/y over a box are attained at corners), compared exactly at a common scale -- for division by "
     "cross-multiplication with the returned endpoint -- and that no endpoint is nan, every endpoint is canonical with at most "
-    "prec bits.  Divisors containing zero must give the whole line or the correct half line.  Transcendental interval functions "
-    "(exp, log, sin, gamma ...) depend on the accuracy of directed kernels and are outside this check."
+    "prec bits.  Divisors containing zero must give the whole line or the correct half line.  The string forms of mpi_from_str are "
+    "executed on symbolic decimal pieces (assuming C07 for the digits).  For the transcendental interval functions the accuracy "
+    "of the series kernels is outside, but the places where DIRECTED rounding of exp / log / atan / atan2 fails deterministically "
+    "are covered: arguments where the exact value is a representable point plus or minus less than an ulp (perturbation shortcuts "
+    "for symbolic magnitudes; concrete magnitudes between the shortcut and the range the series resolves, where the real "
+    "atan_taylor / exp_basecase code runs symbolically), special-value branches returning multiples of pi (mpf_pi stubbed by an "
+    "arbitrary constant with its floor and ceiling), and mpf_atan2 against the contracts of its kernels (mpf_atan, mpf_pi stubs "
+    "returning the directed rounding of arbitrary irrational values; the true atan(y/x) related to them by monotonicity only)."
 )
 TRUSTED = _c02.TRUSTED + ["corner lemma for + - * / over boxes (0 not in divisor); monotonicity of |x| on each side of 0"]
 ASSUMPTIONS = ["interval invariant lower <= upper (established by the constructors)", "endpoint kinds/bit lengths/relative exponents concrete per obligation; base exponent(s) symbolic in +-2^30",
                "products/quotients: small shapes with precise bit-vector multiplication"]
 BUDGET = {'quick': dict(ob_deadline_s=150, total_s=300), 'thorough': dict(ob_deadline_s=600, total_s=1500)}
-BOUNDS = {'quick': 'endpoint mantissas 1..9 bits for + - abs neg (incl. infinite endpoints), 1..5 bits for * / square; prec 2..4; every sign pattern of the two intervals'}
+BOUNDS = {'quick': 'endpoint mantissas 1..9 bits for + - abs neg (incl. infinite endpoints), 1..5 bits for * / square; prec 2..4; every sign pattern of the two intervals; directed kernels: prec 4..24, arguments of 1..7 bits with magnitudes 2^-90..2^-13'}
 
 P = lambda bc, off: ['pos', bc, off]
 N = lambda bc, off: ['neg', bc, off]
